@@ -116,7 +116,33 @@ def run_sequences(c):
                       rq("changeLabels", add=["x", "y"]), rq("changeLabels", add=["x"], rem=["y"]), rq("editComment", i=2), rq("editCommentAmbiguous"), rq("editComment", i=1), rq("closeBug"),
                       rq("closeBug"), rq("openBug", auth=False), rq("openBug"), rq("setTitle"), rq("setTitleEmpty"), rq("unknownBug"), rq("addComment", auth=False),
                       rq("addComment"), rq("changeLabels", rem=["x", "y"])]}
-    scheds = [fixed, fixed, fixed] + seq_schedules(c, 45 if c.tier == "quick" else 1500)     # the fixed one under each configured user
+    scheds = [fixed, fixed, fixed] + seq_schedules(c, 30 if c.tier == "quick" else 600)     # the fixed one under each configured user
+    # TLC's simulation picks uniformly among successor states, i.e. mostly label changes (one per pair of label sets): add
+    # sequences drawn uniformly over the request kinds (the trace specification judges them all the same way)
+    import random
+    rnd = random.Random(c.seed * 7919 + 17)
+    names = ["addComment", "addCommentAndClose", "addCommentAndReopen", "editComment", "editCommentAmbiguous", "changeLabels", "openBug", "closeBug",
+             "setTitle", "setTitleEmpty", "unknownBug"]
+    for _ in range(45 if c.tier == "quick" else 1500):
+        reqs, ncomments = [], 1
+        for _k in range(16):
+            name = rnd.choice(names)
+            auth = rnd.random() < 0.8
+            if name == "editCommentAmbiguous" and ncomments < 2:
+                name = "addComment"
+            r = rq(name, auth=auth)
+            if name == "editComment":
+                r["i"] = rnd.randint(1, 3)
+            if name == "changeLabels":
+                a = set(rnd.sample(["x", "y"], rnd.randint(0, 2)))
+                b = set(rnd.sample(["x", "y"], rnd.randint(0, 2))) - a
+                if not a and not b:
+                    a = {"x"}
+                r["add"], r["rem"] = sorted(a), sorted(b)
+            if auth and name in ("addComment", "addCommentAndClose", "addCommentAndReopen"):
+                ncomments += 1
+            reqs.append(r)
+        scheds.append({"reqs": reqs})
     sf, tf = os.path.join(c.scratch, "apiseq-s.ndjson"), os.path.join(c.scratch, "apiseq-t.ndjson")
     with open(sf, "w") as f:
         for s in scheds:
